@@ -46,7 +46,8 @@ def parse(abbr: str, config: Config):
         snippets(abbr, config)
         walk(abbr, transform, config)
     finally:
-        config.user_config['text'] = text
+        if text:
+            config.user_config['text'] = text
     return abbr
 
 def stringify(abbr: Abbreviation, config: Config):
